@@ -217,13 +217,20 @@ def run(prog, rep):
         if f.sym['kind'] != 'lambda' or 'key_value_proxy.h' not in f.file:
             continue
         ok = False
+        # locals that hold the result of the validator call
+        held = set()
+        for x in f.walk():
+            if x['k'] == 'DeclStmt' and x.get('decls') and x.get('c') and any(y['k'] == 'CXXOperatorCallExpr' and y.get('op') == '()' for y in f.walk(x['c'][0])):
+                held.add(x['decls'][0]['d'])
         for x in f.walk():
             if x['k'] == 'IfStmt':
                 var = child(x, 'var')
                 then = child(x, 'then')
-                if var is None or then is None:
+                cond = child(x, 'cond')
+                if then is None:
                     continue
-                from_handler = any(y['k'] == 'CXXOperatorCallExpr' and y.get('op') == '()' for y in f.walk(var))
+                from_handler = (var is not None and any(y['k'] == 'CXXOperatorCallExpr' and y.get('op') == '()' for y in f.walk(var))) or \
+                    (cond is not None and any(y['k'] == 'DeclRefExpr' and y.get('d') in held for y in f.walk(cond)))
                 adds = [y for y in f.walk(then) if y['k'] == 'CXXMemberCallExpr' and (f.callee(y) or {}).get('n') == 'AddValidationError']
                 if from_handler and adds:
                     ok = True
@@ -267,12 +274,21 @@ def run(prog, rep):
                                   'validator reports a moved-from value' % refs[0].get('n')
             patharg = call['c'][1] if len(call['c']) > 1 else None
             fresh = False
+            def builds_path(g, e, depth=0):
+                for x in g.walk(e):
+                    if x['k'] == 'CXXMemberCallExpr' and (g.callee(x) or {}).get('n') == 'GetPath':
+                        return True
+                    if x['k'] == 'CallExpr' and depth < 2:
+                        c_ = g.callee(x) or {}
+                        h = prog.funcs.get(c_.get('id'))
+                        if h is not None and c_.get('repo') and 'KeyValueProxy' in c_.get('q', '') and builds_path(h, h.body, depth + 1):
+                            return True
+                return False
             if patharg is not None:
-                if any(x['k'] == 'CXXMemberCallExpr' and (f.callee(x) or {}).get('n') == 'GetPath' for x in f.walk(patharg)):
+                if builds_path(f, patharg):
                     fresh = True
                 for r in f.walk(patharg):
-                    if r['k'] == 'DeclRefExpr' and r.get('d') in inits and any(x['k'] == 'CXXMemberCallExpr' and (f.callee(x) or {}).get('n') == 'GetPath'
-                                                                                   for x in f.walk(inits[r['d']])):
+                    if r['k'] == 'DeclRefExpr' and r.get('d') in inits and builds_path(f, inits[r['d']]):
                         fresh = True
             if bad is None and not fresh:
                 bad = 'the path argument is not built from GetPath() inside the visitor call'
@@ -383,35 +399,50 @@ def run(prog, rep):
         raise AnalysisBroken('anchor vanished: SerializationContext::OnFinishSerialization')
     f = fs[0]
     rep.touch(f)
-    ok = False
+    # executed for an empty and a non-empty map: throws ValidationException(std::move(map)) exactly in the second case
+    class FinishModel(Model):
+        def __init__(self, empty):
+            self.empty = empty
+
+        def initial_store(self, it, key):
+            return TOP
+
+        def compare(self, it, fr, n, op, a, b):
+            if isinstance(a, int) and isinstance(b, int):
+                return 1 if {'==': a == b, '!=': a != b, '<': a < b, '<=': a <= b, '>': a > b, '>=': a >= b}[op] else 0
+            return Sym(('GUARD', 'CMP@%s' % fr.f.loc(n)))
+
+        def construct(self, it, fr, n, depth):
+            for a in n.get('c', ()):
+                it.ev(fr, a, depth)
+            return TOP
+
+        def primitive(self, it, fr, n, callee, depth):
+            if callee['n'] == 'empty':
+                return 1 if self.empty else 0
+            if callee['n'] == 'size':
+                return 0 if self.empty else 2
+            obj, args = it.call_args(fr, n)
+            for a in args:
+                it.ev(fr, a, depth)
+            return TOP
+    ok = True
+    for empty in (True, False):
+        it = VInterp(prog, FinishModel(empty), max_depth=1, max_paths=20)
+        outs = [p_.outcome for p_ in it.run(f, lambda it_, fr: None)]
+        if empty and any(o[0] == 'THROW' for o in outs):
+            ok = False
+        if not empty and not all(o[0] == 'THROW' and str(o[1]).endswith('ValidationException') for o in outs):
+            ok = False
+    moved = any(x['k'] == 'CXXThrowExpr' and any((f.callee(y) or {}).get('n') == 'move' for y in f.walk(x) if y['k'] == 'CallExpr') for x in f.walk())
+    ok = ok and moved
     uncond_throw = False
-    for x in f.walk():
-        if x['k'] == 'CXXThrowExpr':
-            p = f.parent(x)
-            inside = None
-            while p is not None:
-                if p['k'] == 'IfStmt':
-                    inside = p
-                    break
-                p = f.parent(p)
-            if inside is None:
-                uncond_throw = True
-                continue
-            c = child(inside, 'cond')
-            neg = any(y['k'] == 'UnaryOperator' and y.get('op') == '!' for y in f.walk(c))
-            emp = any((f.callee(y) or {}).get('n') == 'empty' for y in f.walk(c) if y['k'] == 'CXXMemberCallExpr')
-            szne = any((f.callee(y) or {}).get('n') == 'size' for y in f.walk(c) if y['k'] == 'CXXMemberCallExpr') and \
-                any(y['k'] == 'BinaryOperator' and y.get('op') in ('!=', '>') for y in f.walk(c))
-            in_then = any(y is x for y in f.walk(child(inside, 'then')))
-            moved = any((f.callee(y) or {}).get('n') == 'move' for y in f.walk(x) if y['k'] == 'CallExpr')
-            if ((neg and emp) or szne) and in_then and x.get('tt', '').endswith('ValidationException') and moved:
-                ok = True
     if ok and not uncond_throw:
         rep.ok('R17.3', 'OnFinishSerialization', sample={'throws': 'ValidationException(std::move(mErrorsMap)) iff !mErrorsMap.empty()'})
     else:
         rep.finding('R17.3', 'OnFinishSerialization', f.loc(), 'OnFinishSerialization must throw ValidationException(std::move(map)) exactly when the error map is not empty', func=f.id)
     for f in sorted(prog.funcs.values(), key=lambda x: x.id):
-        if f.pq not in ('BitSerializer::LoadObject', 'BitSerializer::SaveObject') or not pattern_in_lib(f):
+        if not pattern_in_lib(f) or not (f.pq in ('BitSerializer::LoadObject', 'BitSerializer::SaveObject') or (f.relfile.endswith('bitserializer/bit_serializer.h') and f.q.startswith('BitSerializer::'))):
             continue
         seq = []
         for x in live_walk(f):
@@ -419,8 +450,8 @@ def run(prog, rep):
                 nm = (f.callee(x) or {}).get('n')
                 if nm in ('SplitAndSerialize', 'Finalize', 'OnFinishSerialization', 'SaveObject', 'LoadObject'):
                     seq.append(nm)
-        if not seq or seq in (['SaveObject'], ['LoadObject']):
-            continue      # forwarding overloads
+        if not seq or 'SplitAndSerialize' not in seq and 'OnFinishSerialization' not in seq:
+            continue      # forwarding overloads (to another overload or to the session helper)
         rep.touch(f)
         site = '%s|%s' % (f.pq, f.sym.get('targs', '')[:70])
         if seq == ['SplitAndSerialize', 'Finalize', 'OnFinishSerialization']:
